@@ -409,6 +409,105 @@ pub enum Source {
     SeedEditsRepair,
 }
 
+// ---------------------------------------------------------------------------
+// Scaled families: structured grammars whose size is a parameter. Random grammars stay small (<= 12 nonterminals,
+// <= 14 terminals, a few dozen states); these reach the sizes at which an index type, a packed field, a textual
+// sort of numbered names or a per-row buffer would give out: > 64 / > 100 terminals, > 128 nonterminals,
+// > 256 states, rules of > 32 symbols, enums with > 100 variants.
+
+pub const SCALED_KINDS: usize = 6;
+/// largest parameter per kind (chosen so that kiki, the reference and rustc stay within ~1 s / ~10 s)
+pub const SCALED_MAX: [usize; SCALED_KINDS] = [24, 300, 120, 50, 60, 40];
+pub const SCALED_NAMES: [&str; SCALED_KINDS] =
+    ["expression-levels", "unit-chain", "many-terminals", "statement-kinds", "optional-layers", "long-rule"];
+
+fn fs(bits: &mut u32, syms: &[Sym]) -> SFs {
+    // the form and the used/skipped mask come from a bit stream so that every family also varies its fieldsets
+    let mut take = |n: u32| {
+        let v = *bits % n;
+        *bits = bits.rotate_right(3) ^ 0x9E37_79B9;
+        v
+    };
+    let form = if syms.is_empty() { Form::Empty } else if take(2) == 0 { Form::Named } else { Form::Tuple };
+    let fields = syms.iter().map(|s| SField { sym: *s, used: take(4) != 0 }).collect();
+    SFs { form, fields }
+}
+
+pub fn scaled_spec(kind: usize, k: usize, seed: u16) -> Spec {
+    use Sym::{N, T};
+    let k = k.clamp(1, SCALED_MAX[kind % SCALED_KINDS]);
+    let mut bits = (seed as u32).wrapping_mul(0x0101_0101).wrapping_add(12345);
+    let b = &mut bits;
+    let (n_terms, nts, start) = match kind % SCALED_KINDS {
+        0 => {
+            // E_i -> E_i op_i E_{i+1} | E_{i+1}   (i < k);  Atom -> num | ( E_0 )
+            // terminals: op_0..op_{k-1}, num = k, lpar = k+1, rpar = k+2; nonterminals E_0..E_{k-1}, Atom = k
+            let mut nts = vec![];
+            for i in 0..k {
+                nts.push(SNt { is_enum: true, variants: vec![fs(b, &[N(i), T(i), N(i + 1)]), fs(b, &[N(i + 1)])] });
+            }
+            nts.push(SNt { is_enum: true, variants: vec![fs(b, &[T(k)]), fs(b, &[T(k + 1), N(0), T(k + 2)])] });
+            (k + 3, nts, 0)
+        }
+        1 => {
+            // A_i -> A_{i+1}; A_{k-1} -> t0 | t1 A_0
+            let mut nts = vec![];
+            for i in 0..k - 1 {
+                nts.push(SNt { is_enum: false, variants: vec![fs(b, &[N(i + 1)])] });
+            }
+            nts.push(SNt { is_enum: true, variants: vec![fs(b, &[T(0)]), fs(b, &[T(1), N(0)])] });
+            (2, nts, 0)
+        }
+        2 => {
+            // List -> eps | List Item; Item -> t_0 | ... | t_{k-1}
+            let list = SNt { is_enum: true, variants: vec![fs(b, &[]), fs(b, &[N(0), N(1)])] };
+            let item = SNt { is_enum: true, variants: (0..k).map(|i| fs(b, &[T(i)])).collect() };
+            (k, vec![list, item], 0)
+        }
+        3 => {
+            // Prog -> eps | Prog Stmt; Stmt -> kw_i Expr semi; Expr -> num | Expr plus num
+            // terminals kw_0..kw_{k-1}, semi = k, num = k+1, plus = k+2
+            let prog = SNt { is_enum: true, variants: vec![fs(b, &[]), fs(b, &[N(0), N(1)])] };
+            let stmt = SNt { is_enum: true, variants: (0..k).map(|i| fs(b, &[T(i), N(2), T(k)])).collect() };
+            let expr = SNt { is_enum: true, variants: vec![fs(b, &[T(k + 1)]), fs(b, &[N(2), T(k + 2), T(k + 1)])] };
+            (k + 3, vec![prog, stmt, expr], 0)
+        }
+        4 => {
+            // L_i -> Opt_i L_{i+1}; Opt_i -> eps | t_i; L_k -> end      (L_i = 2i, Opt_i = 2i+1, L_k = 2k)
+            let mut nts = vec![];
+            for i in 0..k {
+                nts.push(SNt { is_enum: false, variants: vec![fs(b, &[N(2 * i + 1), N(2 * i + 2)])] });
+                nts.push(SNt { is_enum: true, variants: vec![fs(b, &[]), fs(b, &[T(i)])] });
+            }
+            nts.push(SNt { is_enum: false, variants: vec![fs(b, &[T(k)])] });
+            (k + 1, nts, 0)
+        }
+        _ => {
+            // S -> t0 A t1 A t0 A ... (k symbols); A -> t2 | t2 A
+            let syms: Vec<Sym> = (0..k).map(|i| if i % 2 == 1 { N(1) } else { T((i / 2) % 2) }).collect();
+            let s = SNt { is_enum: false, variants: vec![fs(b, &syms)] };
+            let a = SNt { is_enum: true, variants: vec![fs(b, &[T(2)]), fs(b, &[T(2), N(1)])] };
+            (3, vec![s, a], 0)
+        }
+    };
+    let mut spec = Spec { n_terms, nts, start, slots: (0, 0) };
+    spec.normalize();
+    spec
+}
+
+/// Seed-based cases whose `seed_ix` falls into the top 1/48 of its range use a scaled family instead of a corpus
+/// seed; the size is skewed towards small values (quadratic), the maximum is reached in ~1 of 12 such cases.
+pub fn scaled_choice(raw: &RawGrammar) -> Option<(usize, usize)> {
+    if raw.seed_ix < 0xFAAB {
+        return None;
+    }
+    let kind = (raw.seed_ix as usize) % SCALED_KINDS;
+    let x = raw.start as u64;
+    let max = SCALED_MAX[kind] as u64;
+    let k = 1 + ((x * x >> 16) * max >> 16) as usize;
+    Some((kind, if raw.start >= 0xEA00 { max as usize } else { k }))
+}
+
 pub fn build(raw: &RawGrammar) -> (Spec, Source) {
     let source = match raw.source & 3 {
         0 => Source::Random,
@@ -420,7 +519,10 @@ pub fn build(raw: &RawGrammar) -> (Spec, Source) {
         Source::Random | Source::RandomRepair => build_random(raw),
         Source::SeedEdits | Source::SeedEditsRepair => {
             let s = seeds();
-            let mut spec = s[pick(raw.seed_ix, s.len())].spec.clone();
+            let mut spec = match scaled_choice(raw) {
+                Some((kind, k)) => scaled_spec(kind, k, raw.slots.0 ^ raw.slots.1),
+                None => s[pick(raw.seed_ix, s.len())].spec.clone(),
+            };
             spec.slots = (pick(raw.slots.0, spec.nts.len() + 1), pick(raw.slots.1, spec.nts.len() + 1));
             spec
         }
